@@ -1,7 +1,9 @@
 //! C12 — modules compile independently of their neighbours; IMPORTS become use lines.
 use crate::asn::*;
 use crate::comp::{self, Cfg, Outcome};
-use crate::ev::{Ctx, Tier};
+use crate::ev::{Ctx, Driver, Failure, Tier};
+use crate::src::Src;
+use rayon::prelude::*;
 use crate::gen::{self, GenCfg};
 use crate::proj::{self, RModule};
 use crate::props::common::*;
@@ -404,6 +406,143 @@ pub fn eval(ms0: &ModuleSet) -> Verdict {
     Verdict::Pass { nontrivial, classes: feats.iter().map(|s| s.to_string()).collect() }
 }
 
+// ---------------------------------------------------------------------------------------
+// "tagging defaults never leak": components that are *copied* into a type of another module
+// (COMPONENTS OF an imported type, an instance of an imported parameterized type) keep the
+// tagging they have where they were written. Oracle: the copied fields carry the same tag
+// attributes in the using module as in a type built the same way in their home module.
+
+#[derive(Clone, Debug, serde::Serialize, serde::Deserialize)]
+struct TagHome {
+    d_home: usize,
+    d_away: usize,
+    /// (tag class 0 context / 1 application / 2 private, number, keyword 0 none / 1 IMPLICIT / 2 EXPLICIT, type index, OPTIONAL)
+    members: Vec<(u8, u8, u8, u8, bool)>,
+}
+
+const TAG_DEFAULTS: [&str; 4] = ["", "EXPLICIT TAGS", "IMPLICIT TAGS", "AUTOMATIC TAGS"];
+const TH_TYPES: [&str; 5] = ["INTEGER", "BOOLEAN", "OCTET STRING", "CHOICE { c1 INTEGER, c2 BOOLEAN }", "SEQUENCE { s1 INTEGER }"];
+
+fn th_text(c: &TagHome) -> Vec<String> {
+    let comp = |i: usize, m: &(u8, u8, u8, u8, bool), ty: &str| {
+        format!(
+            "m{i} [{}{}] {}{ty}{}",
+            ["", "APPLICATION ", "PRIVATE "][m.0 as usize % 3],
+            m.1,
+            ["", "IMPLICIT ", "EXPLICIT "][m.2 as usize % 3],
+            if m.4 { " OPTIONAL" } else { "" }
+        )
+    };
+    let base: Vec<String> = c.members.iter().enumerate().map(|(i, m)| comp(i, m, TH_TYPES[m.3 as usize % TH_TYPES.len()])).collect();
+    // the template's members: the first is of the parameter type
+    let tmpl: Vec<String> = c.members.iter().enumerate().map(|(i, m)| comp(i, m, if i == 0 { "Tp" } else { TH_TYPES[m.3 as usize % TH_TYPES.len()] })).collect();
+    let defs = format!(
+        "Tg-Defs DEFINITIONS {} ::= BEGIN\nBase ::= SEQUENCE {{ {} }}\nTmpl {{Tp}} ::= SEQUENCE {{ {} }}\nHome-Comp ::= SEQUENCE {{ lead [30] NULL, COMPONENTS OF Base }}\nHome-Inst ::= Tmpl {{ INTEGER }}\nEND\n",
+        TAG_DEFAULTS[c.d_home % 4],
+        base.join(", "),
+        tmpl.join(", ")
+    );
+    let user = format!(
+        "Tg-User DEFINITIONS {} ::= BEGIN\nIMPORTS Base, Tmpl FROM Tg-Defs;\nAway-Comp ::= SEQUENCE {{ lead [30] NULL, COMPONENTS OF Base }}\nAway-Inst ::= Tmpl {{ INTEGER }}\nEND\n",
+        TAG_DEFAULTS[c.d_away % 4]
+    );
+    vec![defs, user]
+}
+
+/// None = holds / outside the premise; Some(detail) = a copied field's tagging differs
+fn th_eval(c: &TagHome) -> Result<Option<String>, String> {
+    let srcs = th_text(c);
+    let blocks = compile_blocks(&srcs, &Cfg::default())?;
+    let home = blocks.get("tg_defs").ok_or("no tg_defs block")?;
+    let away = blocks.get("tg_user").ok_or("no tg_user block")?;
+    for (h, a) in [("HomeComp", "AwayComp"), ("HomeInst", "AwayInst")] {
+        let (Some(hs), Some(as_)) = (home.find_struct(h), away.find_struct(a)) else {
+            return Err(format!("{h} / {a} not generated"));
+        };
+        for hf in &hs.fields {
+            if hf.name == "lead" {
+                continue;
+            }
+            let Some(af) = as_.fields.iter().find(|f| f.name == hf.name) else {
+                return Ok(Some(format!("{a} lacks the copied field {} that {h} has", hf.name)));
+            };
+            if af.attrs.tag != hf.attrs.tag {
+                return Ok(Some(format!(
+                    "field {} copied into {a} (module default `{}`) carries {:?}, in its home module (default `{}`) the same copy in {h} carries {:?}",
+                    hf.name,
+                    TAG_DEFAULTS[c.d_away % 4],
+                    af.attrs.tag,
+                    TAG_DEFAULTS[c.d_home % 4],
+                    hf.attrs.tag
+                )));
+            }
+        }
+    }
+    Ok(None)
+}
+
+fn th_leg(ctx: &mut Ctx, tier: Tier, seed: u64) {
+    let mut cases: Vec<TagHome> = vec![];
+    for (_p, v) in crate::ev::replay_files("C12") {
+        if v["kind"] == "c12-taghome" {
+            if let Ok(c) = serde_json::from_value::<TagHome>(v["case"].clone()) {
+                cases.push(c);
+            }
+        }
+    }
+    let n = tier.pick(600, 6000);
+    let mut drv = Driver::new(seed, 1212, 40);
+    for t in drv.draw(n) {
+        let s = t.current();
+        let mut src = Src::new(&s);
+        let d_home = src.pick(4);
+        let d_away = src.pick(4);
+        let k = 1 + src.pick(4);
+        let mut members = vec![];
+        for i in 0..k {
+            // distinct tag numbers so that the SEQUENCE is valid whatever the tagging
+            members.push((src.pick(3) as u8, (i * 3 + src.pick(3)) as u8, src.weighted(&[6, 2, 2]) as u8, src.pick(TH_TYPES.len()) as u8, src.chance(25)));
+        }
+        cases.push(TagHome { d_home, d_away, members });
+    }
+    let results: Vec<(TagHome, Result<Option<String>, String>)> = cases.into_par_iter().map(|c| { let r = th_eval(&c); (c, r) }).collect();
+    let mut reported = 0;
+    for (c, r) in results {
+        match r {
+            Err(_) => ctx.class("taghome:skipped (did not compile / not generated)"),
+            Ok(res) => {
+                let text = th_text(&c).join("\n");
+                ctx.case(&format!("taghome:{text}"), c.d_home % 4 != c.d_away % 4);
+                ctx.class("leg:copied-components-keep-home-tagging");
+                ctx.class(&format!("taghome:home={} away={}", TAG_DEFAULTS[c.d_home % 4], TAG_DEFAULTS[c.d_away % 4]));
+                if let Some(d) = res {
+                    ctx.class("fails:taghome");
+                    if reported < 3 {
+                        reported += 1;
+                        // smallest failing prefix of the member list
+                        let mut small = c.clone();
+                        while small.members.len() > 1 {
+                            let mut t2 = small.clone();
+                            t2.members.pop();
+                            if matches!(th_eval(&t2), Ok(Some(_))) {
+                                small = t2;
+                            } else {
+                                break;
+                            }
+                        }
+                        let d = match th_eval(&small) { Ok(Some(d2)) => d2, _ => d };
+                        ctx.fail(Failure {
+                            finding: None,
+                            what: format!("tagging default leaks into copied components: {d}"),
+                            replay: json!({"kind": "c12-taghome", "case": small, "sources": th_text(&small).iter().enumerate().map(|(i, t)| json!({"name": format!("m{i}.asn"), "text": t})).collect::<Vec<_>>(), "observed": d}),
+                        });
+                    }
+                }
+            }
+        }
+    }
+}
+
 pub fn run(tier: Tier, seed: u64, replay: Option<String>) -> i32 {
     let mut ctx = Ctx::new("C12", tier, seed);
     ctx.rule = "sets of 1..5 generated modules with independent tagging/extensibility defaults and arbitrary (also cyclic) type import graphs, enriched with \
@@ -424,11 +563,29 @@ pub fn run(tier: Tier, seed: u64, replay: Option<String>) -> i32 {
         max_violations: 3,
         eval: &e,
     };
+    if let Some(p) = &replay {
+        let v: serde_json::Value = serde_json::from_str(&std::fs::read_to_string(p).unwrap_or_default()).unwrap_or_default();
+        if v["kind"] == "c12-taghome" {
+            if let Ok(c) = serde_json::from_value::<TagHome>(v["case"].clone()) {
+                match th_eval(&c) {
+                    Err(e) => ctx.inconclusive.push(e),
+                    Ok(res) => {
+                        ctx.case(&th_text(&c).join("\n"), true);
+                        if let Some(d) = res {
+                            ctx.fail(Failure { finding: None, what: format!("tagging default leaks into copied components: {d}"), replay: v.clone() });
+                        }
+                    }
+                }
+            }
+            return ctx.finish();
+        }
+    }
     if let Some(p) = replay {
         let r = replay_generic(&mut ctx, &run, "c12", &p);
         let code = ctx.finish();
         return if r == 2 { 2 } else { code };
     }
     run_generic(&mut ctx, &run, "c12");
+    th_leg(&mut ctx, tier, seed);
     ctx.finish()
 }
